@@ -35,14 +35,19 @@ def full_config(draw, modes=("vector", "scalar", "blobs", "blobs2", "blobs_auto"
     periodic = [idx[0]] if bsel in ("periodic", "both") else None
     reflective = [idx[1 if bsel == "both" else 0]] if bsel in ("reflective", "both") else None
     steps = draw(st.sampled_from([None, None, (1, 2), (2, 5)]))
+    # one case in eight leaves n_particles to the constructor's default (2 * n_dim): very small batches
+    np_default = draw(st.integers(0, 7)) == 0
+    n_particles = 2 * d if np_default else draw(st.sampled_from([16, 24, 17, 32]))
     return {
-        "d": d, "mode": mode, "tseed": draw(st.integers(0, 10**6)), "zero": allow_zero and draw(st.booleans()),
+        "np_default": np_default,
+        "d": d, "mode": mode, "tseed": draw(st.integers(0, 10**6)), # (a zero-likelihood region next to batches of 2*d draws mostly produces batches without any supported draw: finding K7)
+        "zero": allow_zero and draw(st.booleans()) and not np_default,
         "narrow": draw(st.sampled_from([1.0, 1.0, 1.0, 0.2])) if allow_narrow else 1.0,
         "kernel": draw(st.sampled_from(["tpcn", "rwm"])), "resample": draw(st.sampled_from(["mult", "syst"])),
         "clustering": draw(st.booleans()), "normalize": draw(st.booleans()), "cluster_every": draw(st.sampled_from([1, 1, 2, 3])),
         "n_max_clusters": draw(st.sampled_from([None, None, 1, 2, 4])), "split_threshold": draw(st.sampled_from([1.0, 0.3, 3.0])),
         "ess_ratio": draw(st.sampled_from([2.0, 1.0, 3.5, 1.3, 2.45])), "metric": draw(st.sampled_from(list(metrics))),
-        "n_particles": draw(st.sampled_from([16, 24, 17, 32])), "n_steps": None if steps is None else steps[0],
+        "n_particles": n_particles, "n_steps": None if steps is None else steps[0],
         "n_max_steps": None if steps is None else steps[1], "periodic": periodic, "reflective": reflective,
         "pool": draw(st.sampled_from(list(pools))) if mode != "vector" else draw(st.sampled_from([None, None, "permuting"])),
         "pool_seed": draw(st.integers(0, 10**6)),
@@ -85,7 +90,7 @@ def build(case, target=None, output_dir=None, random_state="case", n_particles=N
     kw.update(dict(sample=case["kernel"], resample=case["resample"], clustering=case["clustering"], normalize=case["normalize"],
                    cluster_every=case["cluster_every"], n_max_clusters=case["n_max_clusters"], split_threshold=case["split_threshold"],
                    ess_ratio=case["ess_ratio"], volume_variation=None if m == "ess" else float(m[2:]),
-                   n_particles=int(n_particles or case["n_particles"]), n_steps=case["n_steps"], n_max_steps=case["n_max_steps"],
+                   n_particles=None if (case.get("np_default") and n_particles is None) else int(n_particles or case["n_particles"]), n_steps=case["n_steps"], n_max_steps=case["n_max_steps"],
                    periodic=case["periodic"], reflective=case["reflective"], pool=p, random_state=rs))
     if output_dir is not None:
         kw["output_dir"] = output_dir
@@ -102,6 +107,6 @@ def ll_of(case, t, x_row):
 
 
 def summary(case):
-    keys = ("d", "mode", "kernel", "resample", "clustering", "cluster_every", "n_max_clusters", "metric", "ess_ratio", "n_particles",
+    keys = ("np_default", "d", "mode", "kernel", "resample", "clustering", "cluster_every", "n_max_clusters", "metric", "ess_ratio", "n_particles",
             "periodic", "reflective", "pool", "ll_extra", "random_state", "zero", "narrow")
-    return {k: case[k] for k in keys}
+    return {k: case.get(k) for k in keys}
